@@ -206,6 +206,9 @@ SRCTIE = {
                                                      "BlockCursor.move_on_first", "BlockCursor.move_on_last", "BlockCursor.move_on_next", "BlockCursor.move_on_prev",
                                                      "BlockCursor.move_on_key_lower_than_or_equal_to", "BlockCursor.move_on_key_greater_than_or_equal_to",
                                                      "varint_decode32", "varint_length_packed", "CompressionType"]),
+    "Grenad.SrcTie.TBlockSrc": ("SrcBlockCursor", ["Block", "Block.payload", "Block.entry_at", "Block.index_offsets", "BlockCursor", "BlockCursor.current",
+                                                   "BlockCursor.move_on_first", "BlockCursor.move_on_last", "BlockCursor.move_on_next", "BlockCursor.move_on_prev",
+                                                   "BlockCursor.move_on_key_lower_than_or_equal_to", "BlockCursor.move_on_key_greater_than_or_equal_to"]),
     "Grenad.SrcTie.Smoke": ("SrcBlockCursor,SrcBlockWriter", ["BlockCursor.move_on_next", "BlockCursor.move_on_prev", "BlockCursor.move_on_last",
                                                               "BlockCursor.move_on_key_lower_than_or_equal_to", "BlockCursor.move_on_key_greater_than_or_equal_to",
                                                               "BlockWriter.insert", "BlockWriter.finish"]),
@@ -213,7 +216,7 @@ SRCTIE = {
                                                      "BlockWriter.insert", "BlockWriter.finish", "varint_encode32"]),
 }
 for _p, _mods in {"C14": ["Varint", "Block", "C14Src"], "C13": ["Meta", "C13Src"], "C10": ["Meta", "C10Src"], "C09": ["Meta", "BlockWriter", "Varint", "C13Src"], "C04": ["IterRange"],
-                  "C05": ["IterPrefix", "C05Src"], "C18": ["BlockWriter", "C18Src"], "C15": ["BlockWriter", "WriterBuilder"], "C01": ["BlockWriter", "Varint", "Meta", "Block", "BlockCursor"], "C02": ["BlockCursor", "Smoke"]}.items():
+                  "C05": ["IterPrefix", "C05Src"], "C18": ["BlockWriter", "C18Src"], "C15": ["BlockWriter", "WriterBuilder"], "C01": ["BlockWriter", "Varint", "Meta", "Block", "BlockCursor", "TBlockSrc"], "C02": ["BlockCursor", "Smoke", "TBlockSrc"]}.items():
     PROPS[_p]["srctie"] = ["Grenad.SrcTie." + m for m in _mods]
 
 
